@@ -141,7 +141,9 @@ func (am *assetMgr) loadAsset(logger *slog.Logger, mpdPath string) error {
 			md.Title = pi.Title
 		}
 	}
-	md.Dur = mpd.MediaPresentationDuration.String()
+	if mpd.MediaPresentationDuration != nil {
+		md.Dur = mpd.MediaPresentationDuration.String()
+	}
 
 	fillContentTypes(assetPath, mpd.Periods[0])
 
